@@ -393,6 +393,8 @@ def free_passes(sc, binp, prop, tier, inst, pyinst, scen, spath, out):
                 out["violations"].append((rf, "%s fails on a history recorded in a free-running pass of scenario %s of instance %s" % (r.violated, s["id"], inst)))
             else:
                 out["unreproduced"] = out.get("unreproduced", 0) + 1
+                out.setdefault("unreproduced_samples", []).append({"instance": inst, "scenario": s and s["id"], "pass": pno, "invariant": r.violated,
+                                                                   "recorded": recs[l - 1] if l else None})
         if prop in STRICT:
             r2 = trace_check(sc, inst, recs, list(STRICT[prop]), "%s_%s_free%d_strict" % (prop, inst, k), cont=True)
             for name in violated_names(r2):
@@ -444,6 +446,9 @@ def do_check(sc, binp, prop, tier, v=None):
             cov["crashed_scenarios"] += c["process_deaths"]
             cov["free_running_histories"] = cov.get("free_running_histories", 0) + c.get("free_running_histories", 0)
             cov["free_running_unreproduced"] = cov.get("free_running_unreproduced", 0) + out.get("unreproduced", 0)
+            if out.get("unreproduced_samples"):
+                cov.setdefault("free_running_unreproduced_samples", [])
+                cov["free_running_unreproduced_samples"] += out["unreproduced_samples"][:max(0, 2 - len(cov["free_running_unreproduced_samples"]))]
             cov["instances"].append(c)
         if out["nonconf"]:
             cov.setdefault("nonconformance", [])
